@@ -208,17 +208,20 @@ pub struct UndefinedSymbol {
     span: Option<Span>,
 }
 
+#[derive(Clone)]
 pub enum TestElement {
     Assertion(Assertion),
     Trace(Trace),
 }
 
+#[derive(Clone)]
 pub struct Assertion {
     pub expr: Located<Expression>,
     pub snapshot: SymbolSnapshot,
     pub failure_message: Option<String>,
 }
 
+#[derive(Clone)]
 pub struct Trace {
     pub exprs: Vec<Located<Expression>>,
     pub snapshot: SymbolSnapshot,
